@@ -287,6 +287,15 @@ func c08Lifecycle(ctx *core.Ctx, c c08Case, l *rec.Log, replies []wire.Reply, gi
 		}
 	}
 	for _, e := range ev {
+		if c.Kind == "closeoverlap" && e.Kind == "log" && strings.Contains(e.A, "nil pointer dereference") {
+			// Server.Close / Conn.Close on another goroutine takes the session away between the command
+			// loop's "closed?" test and a buffered command's use of the session: the handler
+			// dereferences nil, the panic is recovered, and neither the backend nor the peer sees
+			// anything. No clause of the statement speaks about it (same decision as in C20, DESIGN.md
+			// section 9.3); it is counted, not judged.
+			ctx.Add("recovered_nil_session_panics_under_external_close_not_judged", 1)
+			continue
+		}
 		if e.Kind == "log" && strings.Contains(e.A, "panic") && !strings.HasPrefix(reason, "panic") {
 			return fail("C08:recovered-panic", "a panic was recovered while serving: "+clipStr(e.A, 300))
 		}
